@@ -72,8 +72,8 @@ class C10(Prop):
                            "baize.multipart*", "baize.datastructures.FormData/UploadFile", "asyncio tasks/futures (CPython)"],
                   "stub": ["event-loop selector/clock (SimLoop)", "ASGI server receive() (AsgiHttpPeer)", "wsgi.input (SimInput)"]}
     hard_probes = ("disconnect", "asgi_multi_task", "shared_body_future", "wsgi_run", "short_read")
-    quick_runs = 60000
-    thorough_runs = 1500000
+    quick_runs = 300000
+    thorough_runs = 3000000
     batch = 500
 
     # -- plan ----------------------------------------------------------------
